@@ -14,7 +14,7 @@ TIMEOUT = {'quick': 1200, 'thorough': 7200}
 MUST_HIT = ['NonInterference.observe-others', 'FreshLoader.compare', 'IdentitySweep.pairs',
             'Mutation.new', 'Mutation.delete', 'Mutation.setattr', 'Mutation.relate', 'Mutation.unrelate',
             'Mutation.append_attribute', 'Mutation.insert_attribute', 'Mutation.delete_attribute',
-            'Mutation.define_unique_identifier', 'Mutation.define_class', 'History.late-create-table',
+            'Mutation.define_unique_identifier', 'Mutation.define_class', 'History.late-create-table', 'History.rejected-input-call',
             'Build.generator-integer', 'Build.generator-uuid', 'Build.generator-default']
 MUST_REACH = ['xtuml/load.py:ModelLoader.build_metamodel', 'xtuml/load.py:ModelLoader.populate_classes',
               'xtuml/load.py:ModelLoader.populate_associations', 'xtuml/meta.py:MetaClass.append_attribute',
@@ -223,6 +223,13 @@ def run_history(ctx, rng):
     models = []          # [metamodel, last observation]
     peeks = []           # the next id of each metamodel's generator
     plan = [('input', t) for t in fragments(rng)]
+    if rng.random() < 0.4:
+        # an input call that is rejected after one or more well-formed statements: nothing of it is accepted input
+        good = [l for _, t in plan for l in t.splitlines() if l.startswith('INSERT')]
+        head = '\n'.join(rng.sample(good, min(len(good), rng.randint(1, 2)))) if good else 'CREATE TABLE Zq (Id INTEGER);'
+        bad = head + '\n' + rng.choice(('INSERT INTO ( ;', 'CREATE TABLE ;', '\x01', "INSERT INTO X VALUES ('unterminated);",
+                                          'CREATE ROP REF_ID R1 FROM 1 A () TO ;', ') ;'))
+        plan.insert(rng.randint(1, len(plan)), ('bad-input', bad))
     nbuilds = rng.randint(2, 4)
     for _ in range(nbuilds):
         plan.insert(rng.randint(1, len(plan)), ('build',))
@@ -235,6 +242,13 @@ def run_history(ctx, rng):
             loader.input(step[1])
             accepted.append(step[1])
             log.append(('input', step[1][:60]))
+        elif step[0] == 'bad-input':
+            try:
+                loader.input(step[1])
+                accepted.append(step[1])
+            except xtuml.ParsingException:
+                ctx.hit('History.rejected-input-call')
+            log.append(('input (rejected)', step[1][:200]))
         elif step[0] == 'build':
             # the generator is given (every build its own) or left to the loader (which then has to give every
             # build its own as well)
